@@ -1,0 +1,208 @@
+/*
+ * Verification facade: `MqttClientImpl` (lifecycle state machine, events, reconnect back-off) driven
+ * synchronously: the caller plays the role of the network driver loops (`client_event_loop`).
+ * Only compiled with the `verif` feature.
+ */
+
+use super::codec::*;
+use super::engine::connect_options_of;
+use super::text::*;
+use crate::client::*;
+use crate::client::config::*;
+use crate::mqtt::*;
+
+use std::sync::{Arc, Mutex};
+use std::time::Duration;
+
+pub(crate) struct ClientSession {
+    client: Option<MqttClientImpl>,
+    events: Arc<Mutex<Vec<String>>>,
+    results: Arc<Mutex<Vec<String>>>,
+    next_user_op: usize,
+}
+
+fn state_name(s: ClientImplState) -> &'static str {
+    match s {
+        ClientImplState::Stopped => "Stopped",
+        ClientImplState::Connecting => "Connecting",
+        ClientImplState::Connected => "Connected",
+        ClientImplState::PendingReconnect => "PendingReconnect",
+        ClientImplState::Shutdown => "Shutdown",
+    }
+}
+
+fn state_of(name: &str) -> Result<ClientImplState, String> {
+    match name {
+        "Stopped" => Ok(ClientImplState::Stopped),
+        "Connecting" => Ok(ClientImplState::Connecting),
+        "Connected" => Ok(ClientImplState::Connected),
+        "PendingReconnect" => Ok(ClientImplState::PendingReconnect),
+        "Shutdown" => Ok(ClientImplState::Shutdown),
+        _ => Err(format!("bad state {}", name)),
+    }
+}
+
+impl ClientSession {
+    pub(crate) fn new() -> Self {
+        ClientSession { client: None, events: Arc::new(Mutex::new(Vec::new())), results: Arc::new(Mutex::new(Vec::new())), next_user_op: 0 }
+    }
+
+    fn drain(&self) -> String {
+        let mut e = self.events.lock().unwrap();
+        let mut r = self.results.lock().unwrap();
+        let out = format!("events={} comps={}", e.join(","), r.join(","));
+        e.clear();
+        r.clear();
+        out
+    }
+
+    /// `cli.new v=5 policy=.. jitter=none|uniform base=<ms> max=<ms> stable=<ms> ctimeout=<ms> pingto=<ms> | <connect options>`
+    fn cmd_new(&mut self, head: &str, payload: &str) -> Result<String, String> {
+        let (_, kv) = split_kv(head);
+        let connect_text = format!("c {}", payload);
+        let (_, ckv) = split_kv(&connect_text);
+        let connect_options = connect_options_of(&ckv)?;
+        let mut builder = MqttClientOptions::builder();
+        builder.with_offline_queue_policy(policy_of(get(&kv, "policy").unwrap_or("acked"))?);
+        builder.with_protocol_mode(match version_of(&kv)? { ProtocolVersion::Mqtt5 => ProtocolMode::Mqtt5, ProtocolVersion::Mqtt311 => ProtocolMode::Mqtt311 });
+        builder.with_reconnect_period_jitter(match get(&kv, "jitter") {
+            Some("uniform") => ExponentialBackoffJitterType::Uniform,
+            _ => ExponentialBackoffJitterType::None,
+        });
+        // periods are given in nanoseconds so that extreme values can be expressed
+        if let Some(v) = get_num::<u128>(&kv, "base")? { builder.with_base_reconnect_period(duration_of_nanos(v)); }
+        if let Some(v) = get_num::<u128>(&kv, "max")? { builder.with_max_reconnect_period(duration_of_nanos(v)); }
+        if let Some(v) = get_num::<u128>(&kv, "stable")? { builder.with_reconnect_stability_reset_period(duration_of_nanos(v)); }
+        if let Some(v) = get_num::<u64>(&kv, "ctimeout")? { builder.with_connect_timeout(Duration::from_millis(v)); }
+        if let Some(v) = get_num::<u64>(&kv, "pingto")? { builder.with_ping_timeout(Duration::from_millis(v)); }
+        let events = self.events.clone();
+        let spawner: CallbackSpawnerFunction = Box::new(|event, callback| { (callback)(event) });
+        let mut client = MqttClientImpl::new(builder.build(), connect_options, spawner);
+        let listener: ClientEventListener = Arc::new(move |event: Arc<ClientEvent>| {
+            let text = match &*event {
+                ClientEvent::ConnectionAttempt(_) => "Attempt".to_string(),
+                ClientEvent::ConnectionSuccess(s) => format!("Success.sp{}", s.connack.session_present() as u8),
+                ClientEvent::ConnectionFailure(f) => format!("Failure.{}", error_kind(&f.error)),
+                ClientEvent::Disconnection(d) => format!("Disconnection.{}", error_kind(&d.error)),
+                ClientEvent::Stopped(_) => "Stopped".to_string(),
+                ClientEvent::PublishReceived(p) => format!("Publish.{}", p.publish.qos() as u8),
+                #[allow(unreachable_patterns)]
+                _ => "Other".to_string(),
+            };
+            events.lock().unwrap().push(text);
+        });
+        client.handle_incoming_operation(OperationOptions::AddListener(1, listener));
+        self.client = Some(client);
+        self.next_user_op = 0;
+        self.events.lock().unwrap().clear();
+        self.results.lock().unwrap().clear();
+        Ok("res=ok".to_string())
+    }
+
+    fn status(&self, res: &str) -> String {
+        let c = self.client.as_ref().unwrap();
+        let (desired, has_stop, stop_disc) = c.verif_desired_state();
+        format!("res={} cur={} desired={} stopopts={}{} proto={} {}", res, state_name(c.get_current_state()), state_name(desired),
+            has_stop as u8, stop_disc as u8, c.get_protocol_state(), self.drain())
+    }
+
+    pub(crate) fn dispatch(&mut self, verb: &str, head: &str, payload: &str) -> Result<String, String> {
+        if verb == "cli.new" {
+            return self.cmd_new(head, payload);
+        }
+        let (_, kv) = split_kv(head);
+        if self.client.is_none() {
+            return Err("no client".to_string());
+        }
+        match verb {
+            "cli.op" => {
+                let what = get(&kv, "op").unwrap_or("");
+                let client = self.client.as_mut().unwrap();
+                match what {
+                    "start" => client.handle_incoming_operation(OperationOptions::Start(None)),
+                    "stop" => client.handle_incoming_operation(OperationOptions::Stop(StopOptionsInternal { disconnect: None })),
+                    "stopdisc" => {
+                        let packet = if payload.is_empty() { parse_packet("disconnect rc=0")? } else { parse_packet(payload)? };
+                        client.handle_incoming_operation(OperationOptions::Stop(StopOptionsInternal { disconnect: Some(Box::new(packet)) }))
+                    }
+                    "close" => client.handle_incoming_operation(OperationOptions::Shutdown()),
+                    "pub" => {
+                        let packet = parse_packet(payload)?;
+                        let index = self.next_user_op;
+                        self.next_user_op += 1;
+                        let sink = self.results.clone();
+                        let handler: ResponseHandler<PublishResult> = Box::new(move |result| {
+                            let text = match result { Ok(_) => "ok".to_string(), Err(e) => format!("err.{}", error_kind(&e)) };
+                            sink.lock().unwrap().push(format!("{}:{}", index, text));
+                            Ok(())
+                        });
+                        client.handle_incoming_operation(OperationOptions::Publish(Box::new(packet),
+                            PublishOptionsInternal { options: PublishOptions::builder().build(), response_handler: Some(handler) }))
+                    }
+                    _ => { return Err(format!("bad op {}", what)); }
+                }
+                Ok(self.status("ok"))
+            }
+            "cli.compute" => {
+                let t = self.client.as_ref().unwrap().compute_optional_state_transition();
+                Ok(format!("res=ok transition={}", t.map(state_name).unwrap_or("none")))
+            }
+            "cli.transition" => {
+                let target = state_of(get(&kv, "to").unwrap_or(""))?;
+                let r = self.client.as_mut().unwrap().transition_to_state(target);
+                let text = match &r { Ok(()) => "ok".to_string(), Err(e) => format!("err:{}", error_kind(e)) };
+                Ok(self.status(&text))
+            }
+            "cli.error" => {
+                // the drivers record transport-level failures with apply_error before changing state
+                let kind = get(&kv, "kind").unwrap_or("closed");
+                let error = if kind == "establish" {
+                    crate::error::GneissError::new_connection_establishment_failure("scripted")
+                } else {
+                    crate::error::GneissError::new_connection_closed("scripted")
+                };
+                self.client.as_mut().unwrap().apply_error(error);
+                Ok("res=ok".to_string())
+            }
+            "cli.advance" => {
+                let d = self.client.as_mut().unwrap().advance_reconnect_period();
+                let (next, base, max, stable) = self.client.as_ref().unwrap().verif_reconnect_state();
+                Ok(format!("res=ok wait={} next={} base={} max={} stable={}", d.as_nanos(), next.as_nanos(), base.as_nanos(), max.as_nanos(), stable.as_nanos()))
+            }
+            "cli.backoff" => {
+                let (next, base, max, stable) = self.client.as_ref().unwrap().verif_reconnect_state();
+                Ok(format!("res=ok next={} base={} max={} stable={}", next.as_nanos(), base.as_nanos(), max.as_nanos(), stable.as_nanos()))
+            }
+            "cli.data" => {
+                let data = get_bin(&kv, "b")?.unwrap_or_default();
+                let r = self.client.as_mut().unwrap().handle_incoming_bytes(&data);
+                let text = match &r { Ok(()) => "ok".to_string(), Err(e) => { let k = error_kind(e); self.client.as_mut().unwrap().apply_error(r.unwrap_err()); format!("err:{}", k) } };
+                Ok(self.status(&text))
+            }
+            "cli.wc" => {
+                let r = self.client.as_mut().unwrap().handle_write_completion();
+                let text = match &r { Ok(()) => "ok".to_string(), Err(e) => { let k = error_kind(e); self.client.as_mut().unwrap().apply_error(r.unwrap_err()); format!("err:{}", k) } };
+                Ok(self.status(&text))
+            }
+            "cli.svc" => {
+                let cap = req_num::<usize>(&kv, "cap")?;
+                let mut buffer: Vec<u8> = Vec::with_capacity(cap);
+                let r = self.client.as_mut().unwrap().handle_service(&mut buffer);
+                let text = match &r { Ok(()) => "ok".to_string(), Err(e) => { let k = error_kind(e); self.client.as_mut().unwrap().apply_error(r.unwrap_err()); format!("err:{}", k) } };
+                Ok(format!("{} bytes={}", self.status(&text), hex(&buffer)))
+            }
+            "cli.nst" => {
+                let t = self.client.as_mut().unwrap().get_next_connected_service_time();
+                Ok(format!("res=ok next={}", match t { None => "never", Some(v) => if v <= std::time::Instant::now() { "now" } else { "later" } }))
+            }
+            "cli.status" => Ok(self.status("ok")),
+            _ => Err(format!("unknown client verb {}", verb)),
+        }
+    }
+}
+
+fn duration_of_nanos(n: u128) -> Duration {
+    let secs = (n / 1_000_000_000) as u64;
+    let nanos = (n % 1_000_000_000) as u32;
+    Duration::new(secs, nanos)
+}
